@@ -31,7 +31,7 @@ theorem inv_aput_existing {s : St} {k : MKey} {e e' : Entry} (h : Inv s) (hk : a
 theorem inv_adel_existing {s : St} {k : MKey} {e : Entry} (h : Inv s) (hk : aget k s.entries = some e) :
     Inv { s with entries := adel k s.entries, count := s.count - 1 } := by
   refine ⟨?_, ?_⟩
-  · simp only [keys_adel]; exact List.Nodup.filter _ h.nodup
+  · simp only [keys_adel]; exact List.Nodup.sublist List.filter_sublist h.nodup
   · have := length_adel h.nodup (by simp [hk] : (aget k s.entries).isSome)
     simp only [h.count]; omega
 
